@@ -284,6 +284,37 @@ impl WorldB {
                 self.ledger[ix].challenge_for = Some((cid, cinc));
                 self.deliver_to_server(ix, src, true, obs);
             }
+            K_CROSSRESP => {
+                // a token holder that answers from an address it holds a half-open entry at, under that entry's keys, echoing a
+                // challenge the server issued for somebody else (or for another of its own tokens)
+                let mut entries: Vec<(SocketAddr, usize)> = self.pend_model.iter().map(|(a, p)| (*a, p.0)).filter(|(_, t)| self.tokens[*t].adv_owned).collect();
+                entries.sort();
+                if entries.is_empty() || self.challenges_seen.is_empty() {
+                    return;
+                }
+                let (src, tid) = entries[op.a as usize % entries.len()];
+                let inc = self.incarnation;
+                let my_id = self.tokens[tid].id;
+                let other: Vec<usize> = (0..self.challenges_seen.len()).filter(|&i| self.challenges_seen[i].3 == inc && self.challenges_seen[i].2 != my_id).collect();
+                let pick = if other.is_empty() { op.b as usize % self.challenges_seen.len() } else { other[op.b as usize % other.len()] };
+                let (tseq, tdata, cid, cinc) = self.challenges_seen[pick].clone();
+                let mut td = [0u8; 300];
+                td.copy_from_slice(&tdata);
+                let pkt = Packet::Response { token_sequence: tseq, token_data: td };
+                let key = self.tokens[tid].token.client_to_server_key;
+                let seq = 1000 + op.d % 7;
+                let mut buf = [0u8; 1400];
+                let Ok(n) = pkt.encode(&mut buf, self.tokens[tid].token.protocol_id, Some((seq, &key))) else { return };
+                obs.count("fault.cross_response");
+                if cid != my_id {
+                    obs.count("fault.cross_response_other_id");
+                }
+                obs.abs.u64(0x680);
+                let dst = self.public[0];
+                let ix = self.adv_record(buf[..n].to_vec(), src, dst, Some(tid), false, obs);
+                self.ledger[ix].challenge_for = Some((cid, cinc));
+                self.deliver_to_server(ix, src, true, obs);
+            }
             K_FORGESESS => {
                 if self.tokens.is_empty() {
                     return;
